@@ -1350,7 +1350,13 @@ CGNSDLL void FMNAME(cg_1to1_read_global_f, CG_1TO1_READ_GLOBAL_F) (cgint_f *fn,
      /* get number of 1to1 interface in base:  Nglobal */
     *ier = (cgint_f)cg_n1to1_global((int)*fn, (int)*B, &Nglobal);
     if (*ier) return;
-    if (Nglobal < 1) return;
+    if (Nglobal < 1) {
+         /* nothing to copy back: the arrays are not dereferenced when no
+            interface is counted, but the C function's status is kept */
+        *ier = (cgint_f)cg_1to1_read_global((int)*fn, (int)*B, NULL, NULL,
+                   NULL, NULL, NULL, NULL);
+        return;
+    }
      /* allocate memory for C-arrays (ptr-to-ptr) */
     if ((c_connectname = (char **)malloc(Nglobal*sizeof(char *)))==NULL ||
         (c_zonename    = (char **)malloc(Nglobal*sizeof(char *)))==NULL ||
